@@ -710,17 +710,83 @@ def known_findings(kf, violations, repo, tier):
     return out
 
 
+MODEL_OID = "C09/replay::model-validation/bounded#round-7-os-models-agree-with-the-platform.BOUNDED"
+MODEL_BOUND = "dirname fact: 5 base directories x 40 member-name shapes (the z3 formula itself, evaluated on the platform's os.path); os.makedirs: parent / nested / existing cases in a scratch directory"
+
+
+def model_validation(repo, tier):
+    """The two models this round ADDS (os.path.dirname of a path below the base; what os.makedirs(exist_ok=True) creates) are assumptions about the
+    standard library, not about the code under check.  They are validated on the platform: the very z3 formula `dirname_fact` is checked with ABS /
+    DIRNAME / NORM pinned to what os.path computes, and os.makedirs is run in a scratch directory.  BOUNDED: never counted as proved; a disagreement
+    is a defect of the MODEL (exit 2 territory), reported as `unknown`."""
+    import shutil
+    import tempfile
+    bad, n = [], 0
+    try:
+        names = ["a", "a/b", "a/b/c.txt", "./a", "a/./b", "a//b", "a/../b", "a/b/..", ".", "", "a/", "..a", "a..", "...", "a/...", "\u00e9/x", "a b/c d", "a\\b", "x" * 40 + "/y",
+                 "a/b/c/d/e/f", "-", "~", "~/x", "a/~", "$HOME/x", "a\nb/c", "a/.hidden", ".hidden/a", "a/b/../../c", "a/b/../c/./d", "C:x", "C:/x", "a:b/c", "x/", "x//", "x/./", "./", ".//", "a/./", "a/b/."]
+        isnorm = lambda q: os.path.isabs(q) and os.path.normpath(q) == q and not q.startswith("//")
+        for base in ("/tmp/private_x", "/", "/a", "/tmp/with space/d", "/tmp/priv\u00e9"):
+            for nm in names:
+                pth = os.path.abspath(os.path.join(os.path.abspath(base), nm))
+                d = os.path.dirname(pth)
+                sv = z3.StringVal
+                sol = z3.Solver()
+                sol.set("timeout", 2000)
+                sol.add(ABS(sv(base)) == sv(os.path.abspath(base)), DIRNAME(sv(pth)) == sv(d))
+                for q in {pth, d, os.path.abspath(base)}:
+                    sol.add(NORM(sv(q)) == z3.BoolVal(isnorm(q)))
+                sol.add(z3.Not(dirname_fact(sv(base), sv(pth))))
+                n += 1
+                if sol.check() != z3.unsat:
+                    bad.append(f"dirname fact fails for base={base!r} path={pth!r} dirname={d!r}")
+        root = tempfile.mkdtemp(prefix="c09_model_")
+        try:
+            priv = os.path.join(root, "private")
+            os.mkdir(priv)
+            listing = lambda: sorted(os.path.relpath(os.path.join(dp, x), root) for dp, dn, fn in os.walk(root) for x in dn + fn)
+            before = listing()
+            os.makedirs(os.path.dirname(priv), exist_ok=True)            # the parent of the private directory: nothing is created
+            os.makedirs(os.path.dirname(os.path.abspath(priv)), exist_ok=True)
+            n += 2
+            if listing() != before:
+                bad.append(f"os.makedirs(parent, exist_ok=True) changed the directory tree: {before} -> {listing()}")
+            os.makedirs(os.path.join(priv, "a", "b"), exist_ok=True)   # inside: everything created is inside
+            os.makedirs(priv, exist_ok=True)
+            n += 2
+            if listing() != ["private", "private/a", "private/a/b"]:
+                bad.append(f"os.makedirs(private/a/b) created {listing()}")
+        finally:
+            shutil.rmtree(root, ignore_errors=True)
+    except Exception as e:  # noqa
+        return {"obligations": [], "undecided": [{"obligation": MODEL_OID, "why": f"model validation could not run: {type(e).__name__}: {e}"}]}
+    o = ground_obligation(MODEL_OID, not bad, "; ".join(bad[:5]) or f"{n} instances agree", "contracts/C09.py", kind="bounded", backend="native-replay", definite=False)
+    o["bounded"] = True
+    o["bound"] = MODEL_BOUND
+    return {"obligations": [o]}
+
+
 from contracts import c09_routing  # noqa: E402
 
-EXTRA = [policy, native_collisions, native_collisions_known_temp_name, c09_routing.routing_conformance, c09_routing.routing_lemma]
+EXTRA = [policy, native_collisions, native_collisions_known_temp_name, c09_routing.routing_conformance, c09_routing.routing_lemma, model_validation]
 TRUSTED = ["a normalised absolute path equal to abspath(base) or prefixed by abspath(base)+sep lies inside base (no symlinks are created by the reader)",
            "os.path.abspath returns a normalised absolute path",
-           "a normalised absolute path that ends in a separator is the file-system root: every normalised absolute path with that prefix lies inside it"]
+           "a normalised absolute path that ends in a separator is the file-system root: every normalised absolute path with that prefix lies inside it",
+           "the private directory exists while the reader writes into it: os.makedirs(p, exist_ok=True) creates only missing directories on the way to p, so for p "
+           "inside the private directory everything it creates is inside, and for p = the parent of the private directory it creates nothing (round 7; validated natively: "
+           "C09/replay::model-validation obligation)"]
 ASSUMED_MODELS = ["os.path.abspath/join/splitdrive/isabs/normpath (uninterpreted)", "os.path.commonprefix([a, b]) (character prefix; == a iff a is a prefix of b)",
                   "os.path.commonpath([a, b]) on normalised absolute paths (== a iff b is a or lies below a)",
-                  "os.path.relpath(t, b) on normalised absolute paths (climbs with `..` iff t is neither b nor below b)", "os.sep / os.pardir / os.curdir (POSIX values)", "open/os.makedirs/os.path.exists (effects with confinement obligation)",
-                  "archive_extractor._process_archive_entry (C01)", "archive_extractor._is_supported_file_cached (C07/C15)"]
+                  "os.path.relpath(t, b) on normalised absolute paths (climbs with `..` iff t is neither b nor below b)", "os.sep / os.pardir / os.curdir (POSIX values)",
+                  "os.path.dirname(p) of a normalised absolute path strictly below abspath(base) (is abspath(base) or lies below it; nothing assumed for abspath(base) itself)",
+                  "open/os.makedirs/os.path.exists (effects with confinement obligation)", "io.BytesIO(data) (an in-memory stream over data; no file)",
+                  "sum(list of ints) (an int; raises nothing)", "file.write (may raise; no other effect than on the already confined open file)"]
+# round 7: archive_extractor._process_archive_entry and archive_extractor._is_supported_file_cached are no longer assumed (verified contracts above);
+# what is still assumed of the library itself is listed by the engine from the `assumed=True` registrations: router.is_supported_file (call-site
+# view of a function verified by the conformance obligation), _get_file_extractor_cached (some callable or an exception), SevenZipReader._decompress_folder
+# (returns bytes or raises Bad7zFile; its content is C10's)
 ASSUMPTIONS = ["PY-STR", "EXC-ANY", "os.path.splitext by axioms A1-A3 and an arbitrary MIME database (routing lemma, as in pack C07)", "what third-party extractors do with member *bytes* is outside this property's contracts",
-               "OS-level races (symlink swaps in the temp dir by another process) are not modelled"]
+               "OS-level races (symlink swaps in the temp dir by another process) are not modelled",
+               "PY-MEMO: functools.lru_cache in front of a deterministic function is transparent (memo soundness is C15's)"]
 
 REPLAY_UNKNOWN = True    # undecided / out-of-subset items are searched natively (replay) before being reported UNDECIDED
